@@ -8,6 +8,7 @@ import (
 	"io"
 	"os"
 	"runtime"
+	"sort"
 	"strings"
 	"sync"
 	"time"
@@ -148,6 +149,16 @@ func setHook(f func(string, any, string)) {
 	m3.VerifHook = f
 	m2.VerifHook = f
 }
+
+// language tags in a fixed order (map iteration order is random)
+var langKeys = func() []string {
+	ks := []string{}
+	for k := range langTags {
+		ks = append(ks, k)
+	}
+	sort.Strings(ks)
+	return ks
+}()
 
 var concJobs = []job{
 	{"v3", 'T', "CVSS:3.1/AV:N/AC:L/PR:N/UI:R/S:C/C:H/I:L/A:N/E:F/RL:O/RC:C"},
@@ -310,7 +321,8 @@ func cmdConcStress(args []string) {
 			return fmt.Sprintf("fresh %s=%v/%s/%d", q, r.Err, r.Str, r.Sc)
 		case "names":
 			nm := nameMetas[o.a%len(nameMetas)]
-			return nm.Title(langTags["ja"]) + "|" + nm.ValueOf(o.b%5, langTags["en"])
+			t1, t2 := langTags[langKeys[o.b%len(langKeys)]], langTags[langKeys[(o.b/7)%len(langKeys)]]
+			return nm.Title(t1) + "|" + nm.ValueOf(o.b%6, t2) + "|" + groupTitles[o.b%3].Title(t2)
 		}
 		return "?"
 	}
